@@ -223,8 +223,22 @@ let frames_family (dir : string) =
              let popped = String.concat "," (List.map zs s.popped) in
              let ph = (match s.ph with Idle -> "idle" | Rendering (_, _, rows, n, pc, pu) ->
                Printf.sprintf "rendering(rows=%s,pop=%s,pushes=%d)" (zs n) (zs pc) (List.length pu)) in
-             Printf.fprintf oc "%d REJECT seq=%s line=[%s] heap=[%s] fifo=[%s] popped=[%s] phase=%s hsync=%s hlen=%s dirty=%s\n"
-               !k seq line heap fifo popped ph (bs s.hsync) (zs s.hlen) (bs s.hdirty))
+             (* for a frame that differs from the model's: what differs *)
+             let sub = (match e, s.outframes with
+               | OUT items, exp :: _ ->
+                   let rows l = List.filter_map (function IRow (b, _, _, _, _) -> Some (zi b, -1) | IXRow (b, j) -> Some (zi b, zi j) | _ -> None) l in
+                   let texts l = List.filter (function IText _ -> true | _ -> false) l in
+                   let cuu l = List.filter (function ICuu _ -> true | _ -> false) l in
+                   let ra = rows items and re = rows exp in
+                   if List.sort compare ra <> List.sort compare re then "OUT_ROWS"
+                   else if ra <> re then "OUT_ORDER"
+                   else if texts items <> texts exp then "OUT_TEXT"
+                   else if cuu items <> cuu exp then "OUT_CUU"
+                   else "OUT_CONTENT"
+               | OUT _, [] -> "OUT_UNEXPECTED"
+               | _ -> "") in
+             Printf.fprintf oc "%d REJECT seq=%s sub=%s line=[%s] heap=[%s] fifo=[%s] popped=[%s] phase=%s hsync=%s hlen=%s dirty=%s\n"
+               !k seq sub line heap fifo popped ph (bs s.hsync) (zs s.hlen) (bs s.hdirty))
     | Some _ -> () in
   List.iter (fun line ->
     match tokens line with
